@@ -180,7 +180,7 @@ Print Assumptions C13_agree_is_equality.
     DecodePropFindRequest reads its body as [D.pf r] says.  Then this file's model answers the
     status DavServer answers, never panics, records at most one mutating call (on the request
     path), and records none only if DavServer leaves the sandbox as it was.  PROPPATCH is
-    excluded because DavServer.v has no case for it (next theorem). *)
+    still excluded here (DavServer.v had no case for it when this was proved; see the next theorem). *)
 Theorem C13_agrees_with_file_server_model : forall root sb r r',
   req_match r r' -> D.meth r <> "PROPPATCH" ->
   exists cs,
@@ -195,11 +195,11 @@ Theorem C13_request_translation_exists : forall r, req_match r (req_of r).
 Proof. exact req_of_match. Qed.
 Print Assumptions C13_request_translation_exists.
 
-(** On PROPPATCH the two models differ: DavServer.serve answers 405 (no case for the
-    method), this model 403 for a decodable body (400 otherwise) - as the real handler over
-    a LocalFileSystem does (notes/C13.md). *)
-Theorem C13_file_server_model_proppatch_differs :
-  st (D.serve [] None proppatch_req) = 405 /\
+(** On PROPPATCH the two models used to differ (DavServer.serve answered 405, having no case
+    for the method; this model and the real handler 403 for a decodable body, 400 otherwise;
+    notes/C13.md).  DavServer.v has been corrected; the former witness now agrees. *)
+Theorem C13_file_server_model_proppatch_example :
+  st (D.serve [] None proppatch_req) = 403 /\
   serve (CDav (local_env [] None proppatch_req) proppatch_req') = Resp 403 [].
-Proof. exact proppatch_differs. Qed.
-Print Assumptions C13_file_server_model_proppatch_differs.
+Proof. exact proppatch_example_agrees. Qed.
+Print Assumptions C13_file_server_model_proppatch_example.
